@@ -42,6 +42,12 @@ CHECKS = {
          "around every tradeshield transaction of anyone: wallet+escrow per owner and denom conserved (a position opened by an executed order accounts for its collateral), un-named and un-triggered orders byte-identical (trigger evaluated by the monitor per order type), only owners update / cancel, failed executions leave no position behind, new escrows hold exactly the order amount", "6/C20", TB),
  "C17": ("exploration", "exhaustive message-registry x sender-class sweep with store-digest differential + substitution twin through real blocks",
          "every governance-gated message type registered by the running app is called, on discarded branches of several rich states, with the signer field set to every sender of every class (users, pool creator, feeder, validator operator, every module account, pool addresses): it must fail and the digest of all stores must not change (positive control: governance address is not rejected the same way); the same messages and owner-scoped attacks are also sent through real blocks next to a substitution twin", "6/C17", TB),
+ "C03": ("exploration", "generated-input loop over the real pricing functions against an exact integer reference + value-flow monitor around the swap batch",
+         "tens of thousands of generated constant-product and oracle pools per run through the real Pool.SwapOutAmtGivenIn / SwapInAmtGivenOut compared with the exact weighted-product inequality in big integers (allowances exactly the property's), round-trip and split-trade derived checks, value-in >= value-out for oracle pools; on the full app every AMM / masterchef end-blocker is checked for an oracle pool paying away value", "6/C03", "pure part: only the two keeper interfaces the pool methods take are faked (oracle price table, accounted balances); " + TB),
+ "C05": ("exploration", "generated-input loop over the real join / exit arithmetic against exact integer references + per-share value monitor around every join / exit",
+         "generated pools through the real Pool.JoinPool / ExitPool: per-asset and value-function per-share inequalities, join-then-exit round trips in all form combinations, positive reserves and consistent book after every exit; on the full app the per-share value of the remaining liquidity around every join / exit (also those of leveraged opens / closes) and wallet round trips of an observed LP", "6/C05", "pure part: only the two keeper interfaces the pool methods take are faked; " + TB),
+ "C07": ("exploration", "rate-monotonicity / fair-conversion / cap monitor at every tx and block-phase boundary (exact rationals)",
+         "redemption rate never falls between consecutive observation points beyond one conversion's rounding; every bond / unbond judged against the fair conversion at the pre-message rate; other holders' redeemable value kept; every successful borrow within the 90 % cap on the pre-message state; deposit-then-immediate-withdrawal pairs", "6/C07", TB),
 }
 
 m = {"version": 1, "setup_cmd": "./setup.sh",
